@@ -136,6 +136,38 @@ pub fn main(args: &[String]) -> i32 {
     if !shim_ok {
         failures.push(format!("entropy/clock seam not effective: {} | {} | {}", p1, p2, p3));
     }
+    // (b2) monotonic clock seam: stepping is seen by the opted-in thread only
+    let mono = orch::run_chunks(
+        vec![Chunk { env: env_of(0, None), jobs: vec![(0, json!({"t":"probe_mono","step_ns": 2_000_000_000i64}))] }],
+        &RunOpts { engine: "probe".into(), workers: 1, job_timeout_ms: 20_000, mem_mb: 0, use_shim: true },
+        &scratch.dir,
+    );
+    let mono_ok = match mono.get(&0) {
+        Some(Outcome::Result(v)) => v["opted_in_delta_ns"].as_u64().unwrap_or(0) >= 2_000_000_000 && v["plain_delta_ns"].as_u64().unwrap_or(u64::MAX) < 1_000_000_000,
+        _ => false,
+    };
+    if !mono_ok {
+        failures.push(format!("monotonic clock seam not effective: {:?}", mono.get(&0)));
+    }
+    // (b3) a simulator that cannot start its workers must end with exit status 2 and no verdict
+    let harness_ok = {
+        let exe = std::env::current_exe().unwrap_or_default();
+        let out = std::process::Command::new(exe)
+            .args(["check", "C15", "quick"])
+            .env("CTESIM_TEST_SPAWN_FAIL", "1")
+            .env("VERIF_NO_EVIDENCE", "1")
+            .output();
+        match out {
+            Ok(o) => {
+                let txt = String::from_utf8_lossy(&o.stdout).to_string();
+                o.status.code() == Some(2) && txt.contains("HARNESS-ERROR") && !txt.contains("VIOLATION")
+            }
+            Err(_) => false,
+        }
+    };
+    if !harness_ok {
+        failures.push("a simulator without workers did not end with exit 2 / HARNESS-ERROR".into());
+    }
     // (c) canaries: a worker death and a hang are attributed to the job in flight; a lock-order
     // inversion between two simulated threads is reported as a deadlock
     let can = orch::run_chunks(
@@ -172,6 +204,8 @@ pub fn main(args: &[String]) -> i32 {
         "script_replays_tried": script_tried,
         "script_replays_identical": script_ok,
         "entropy_clock_seam_effective": shim_ok,
+        "monotonic_clock_seam_effective": mono_ok,
+        "harness_failure_gives_exit_2_and_no_verdict": harness_ok,
         "canary_abort_attributed": abort_ok,
         "canary_hang_attributed": hang_ok,
         "canary_deadlock_reported": deadlock_ok,
@@ -183,7 +217,7 @@ pub fn main(args: &[String]) -> i32 {
     let _ = std::fs::create_dir_all(&dir);
     std::fs::write(dir.join("selftest.json"), serde_json::to_string_pretty(&doc).unwrap()).expect("write selftest.json");
     println!("{}", serde_json::to_string_pretty(&doc).unwrap());
-    if mismatches > 0 || script_ok != script_tried || !shim_ok || !abort_ok || !hang_ok || !deadlock_ok {
+    if mismatches > 0 || script_ok != script_tried || !shim_ok || !mono_ok || !harness_ok || !abort_ok || !hang_ok || !deadlock_ok {
         println!("SELFTEST FAILED");
         return 2;
     }
